@@ -81,6 +81,10 @@ func verif_arg[T any](i int) T { var z T; return z }
 
 var verif_ghost struct {
 	uMs       int64  // argument of the most recent time.UnixMilli
+	uTrimS    string // arguments and result of the most recent strings.TrimPrefix
+	uTrimP    string
+	uTrimR    string
+	uEsc      string // result of the most recent (*url.URL).EscapedPath
 	uBefore   bool   // result of the most recent Time.Before ...
 	uBeforeMs int64  // ... whose argument was UnixMilli(this)
 	uAfter    bool   // result of the most recent Time.After ...
@@ -110,6 +114,8 @@ func verif_x_aead_Open(a cipher.AEAD, dst, nonce, ciphertext, additionalData []b
 }
 func verif_x_Unseal(s Sealer, u *url.URL) (r *url.URL, err error) { return s.Unseal(u) }
 func verif_x_HasPrefix(s, p string) (b bool)                      { return strings.HasPrefix(s, p) }
+func verif_x_TrimPrefix(s, p string) (r string)                   { return strings.TrimPrefix(s, p) }
+func verif_x_EscapedPath(u *url.URL) (r string)                   { return u.EscapedPath() }
 func verif_x_HasSuffix(s, p string) (b bool)                      { return strings.HasSuffix(s, p) }
 func verif_x_Contains(s, p string) (b bool)                       { return strings.Contains(s, p) }
 func verif_x_MaybeParse(s string) (h hash.Hash, ok bool)          { return hash.MaybeParse(s) }
